@@ -1,26 +1,31 @@
-/* C10 (sequential fragment): tpt_msg_bsend_ex as a whole - COMPOSITION with the real tpt_msg_send,
- * the real tpt_msg_broadcast_send__int, tpt_msg_sync_proxy_cb and tpt_msg_active_thr_count_dec
- * (nothing of the library is stubbed); write()/mutex/pthread_getspecific/sched_yield/nanosleep are
- * the ASSUMED contracts of stubs/sys_msg.h.
+/* C10 (sequential fragment): tpt_msg_bsend_ex as a whole, with the real
+ * tpt_msg_broadcast_send__int, tpt_msg_sync_proxy_cb and tpt_msg_active_thr_count_dec.
+ *
+ * MODULAR: calls to tpt_msg_send are redirected (goto-instrument --replace-calls) to
+ * vf_stub_send = the CONTRACT of tpt_msg_send as proved for the real function in C05
+ * (tpmsg.send.cases): EINVAL / SELF_DIRECT to self => one direct call / not running: EHOSTDOWN or
+ * (FORCE) one direct call / running: queued (nondeterministic success of the write) or
+ * (FAIL_DIRECT) one direct call or a non-zero error. "Queued" appends (cb, udata) to a ghost
+ * per-thread queue. (A composition with the real tpt_msg_send + ghost pipes was tried first and
+ * exhausts 12 GB: the pool's flexible array member defeats CBMC's constant propagation.)
+ * Mutex / pthread_getspecific / sched_yield / nanosleep: ASSUMED contracts of stubs/sys_msg.h.
  *
  * "Other threads" (the receivers) are modelled inside sched_yield()/nanosleep(): at each yield
- * every pool thread other than the caller may - nondeterministically - take the first packet out
- * of its ghost pipe and run its callback (tpt_msg_sync_proxy_cb, REAL code) exactly as the
- * receiver does; from the VF_FAIR-th yield on every pending packet is taken (BOUNDED FAIRNESS,
- * otherwise the wait loop has no bound). This is ONE sequential schedule family (callbacks run
- * only at yield points, one after another), not an interleaving semantics.
+ * every pool thread other than the caller may - nondeterministically - take the first entry of
+ * its ghost queue and run its callback (tpt_msg_sync_proxy_cb, REAL code) as the receiver does;
+ * from the VF_FAIR-th yield on every pending entry is taken (BOUNDED FAIRNESS, otherwise the wait
+ * loop has no bound). This is ONE sequential schedule family (callbacks run only at yield points,
+ * one after another), not an interleaving semantics.
  * Pool size <= VF_NTHR symbolic, wait loop <= VF_FAIR + 1 iterations: BOUNDED.
  *
  * Postconditions (property text): sent + failed == targeted (all threads, or all but the caller
  * when it is a thread of THIS pool and SELF_SKIP); every targeted thread gets exactly one delivery
  * iff its send was counted as sent, nobody else gets any; the synchronous form returns only when
- * every delivered callback has finished (count-down == 0, no packet referring to the caller's
- * stack record is left anywhere).
+ * every delivered callback has finished (count-down == 0, no queued entry referring to the
+ * caller's stack record is left anywhere).
  * Excluded (documented in the header: "WARNING! This deadlock, frizes possible"): SYNC from a
  * pool thread to itself through its own queue (neither SELF_SKIP nor SELF_DIRECT). */
 #include "vf/vf.h"
-#define VF_NPIPE 3
-#define VF_PIPE_CAP 64
 #include <pthread.h>
 static void vf_on_mtx_destroy(pthread_mutex_t *m);
 #define VF_MTX_DESTROY_HOOK(m) vf_on_mtx_destroy(m)
@@ -33,6 +38,9 @@ static void vf_on_mtx_init(pthread_mutex_t *m);
 #ifndef VF_NTHR
 #define VF_NTHR 3
 #endif
+#ifndef VF_SELF
+#define VF_SELF 0
+#endif
 #ifndef VF_FAIR
 #define VF_FAIR 2
 #endif
@@ -40,8 +48,10 @@ static void vf_on_mtx_init(pthread_mutex_t *m);
 static tp_p vf_tp; static size_t vf_n;
 static tp_thread_t vf_foreign; static tp_t vf_other_tp;
 static tpt_p vf_self;				/* the thread that executes tpt_msg_bsend_ex (NULL: not a pool thread) */
-static tpt_msg_queue_t vf_q[VF_NTHR];
-static struct vf_pipe *vf_gp[VF_NTHR];
+#define VF_QCAP 2
+static struct { tpt_msg_cb cb; void *udata; } vf_pend[VF_NTHR][VF_QCAP];	/* ghost per-thread message queues */
+static size_t vf_pend_n[VF_NTHR];
+static size_t vf_snd_calls;
 static void *vf_udata;
 static size_t vf_cb_cnt[VF_NTHR + 1];		/* callbacks run with tpt == thread i (last: any other tpt) */
 static size_t vf_cb_total, vf_cb_bad_udata;
@@ -58,34 +68,62 @@ static void vf_on_mtx_destroy(pthread_mutex_t *m) {
 	tpt_msg_data_p md = (tpt_msg_data_p)((char *)m - offsetof(tpt_msg_data_t, lock));
 	vf_count_at_destroy = md->active_thr_count;
 }
+static size_t vf_idx(tpt_p tpt);
 static void vf_cb(tpt_p tpt, void *udata) {
-	size_t idx = VF_NTHR;
-	for (size_t i = 0; i < VF_NTHR; i ++) if (tpt == &vf_tp->threads[i]) idx = i;
+	const size_t idx = vf_idx(tpt);
 	vf_cb_cnt[idx] ++; vf_cb_total ++;
 	if (udata != vf_udata) vf_cb_bad_udata ++;
 }
-/* a receiver thread i takes one packet and runs it */
+static size_t vf_idx(tpt_p tpt) {
+	size_t idx = VF_NTHR;
+	for (size_t i = 0; i < VF_NTHR; i ++) if (tpt == &vf_tp->threads[i]) idx = i;
+	return (idx);
+}
+/* the contract of tpt_msg_send (C05 tpmsg.send.cases) */
+int vf_stub_send(tpt_p dst, tpt_p src, uint32_t flags, tpt_msg_cb msg_cb, void *udata) {
+	vf_snd_calls ++;
+	if (dst == NULL || msg_cb == NULL || tpt_get_msg_queue(dst) == NULL)
+		return (EINVAL);
+	if (flags & TP_MSG_F_SELF_DIRECT) {
+		if (src == NULL) src = tpt_get_current();
+		if (src == dst) { msg_cb(dst, udata); return (0); }
+	}
+	if (!tpt_is_running(dst)) {
+		if (!(flags & TP_MSG_F_FORCE)) return (EHOSTDOWN);
+		msg_cb(dst, udata);
+		return (0);
+	}
+	const size_t i = vf_idx(dst);
+	if ((vf_no_faults || nondet_bool()) && i < VF_NTHR && vf_pend_n[i] < VF_QCAP) {	/* the write succeeded */
+		vf_pend[i][vf_pend_n[i]].cb = msg_cb; vf_pend[i][vf_pend_n[i]].udata = udata;
+		vf_pend_n[i] ++;
+		return (0);
+	}
+	if (flags & TP_MSG_F_FAIL_DIRECT) { msg_cb(dst, udata); return (0); }
+	int e = nondet_int();
+	__CPROVER_assume(e != 0);
+	return (e);
+}
+/* a receiver thread i takes its first queued message and runs it */
 static void vf_receive_one(size_t i) {
-	struct vf_pipe *p = vf_gp[i];
-	const uint64_t cbw = p->q.w[1];
-	void *ud = (void *)p->q.w[2];
-	__CPROVER_assert(p->q.w[0] == TPT_MSG_PKT_MAGIC && (p->q.w[1] ^ p->q.w[2]) == p->q.w[3], "receiver model: queued packet is well-formed");
-	for (size_t w = 0; w + 4 < VF_PIPE_WORDS; w ++) p->q.w[w] = p->q.w[w + 4];
-	p->len -= 32;
+	const tpt_msg_cb cb = vf_pend[i][0].cb;
+	void *ud = vf_pend[i][0].udata;
+	vf_pend[i][0] = vf_pend[i][1];
+	vf_pend_n[i] --;
 	vf_popped ++;
-	if (cbw == (uint64_t)(uintptr_t)tpt_msg_sync_proxy_cb) {
-		__CPROVER_assert(ud == (void *)vf_md && vf_md != NULL, "receiver model: a proxy packet carries the shared record");
+	if (cb == tpt_msg_sync_proxy_cb) {
+		__CPROVER_assert(ud == (void *)vf_md && vf_md != NULL, "receiver model: a proxy message carries the shared record");
 		tpt_msg_sync_proxy_cb(&vf_tp->threads[i], vf_md);
-	} else if (cbw == (uint64_t)(uintptr_t)vf_cb) {
+	} else if (cb == vf_cb) {
 		vf_cb(&vf_tp->threads[i], ud);
 	} else
-		__CPROVER_assert(0, "receiver model: unexpected callback in a queued packet");
+		__CPROVER_assert(0, "receiver model: unexpected callback in a queued message");
 }
 void vf_other_threads_step(void) {
 	vf_steps ++;
 	__CPROVER_assert(vf_mtx_held == NULL, "wait loop: yields without holding the lock");
 	for (size_t i = 0; i < VF_NTHR; i ++) {
-		if (i < vf_n && &vf_tp->threads[i] != vf_self && vf_gp[i]->len >= 32 &&
+		if (i < vf_n && &vf_tp->threads[i] != vf_self && vf_pend_n[i] >= 1 &&
 		    (vf_steps >= VF_FAIR || nondet_bool()))
 			vf_receive_one(i);
 	}
@@ -95,15 +133,22 @@ void harness(void) {
 	VF_NONDET(size_t, n);
 	VF_NONDET(uint8_t, have_tp);
 	VF_NONDET(uint8_t, have_cb);
-	VF_NONDET(uint8_t, self_sel);		/* who executes the call: 0 not a pool thread, 1..n thread of this pool, VF_NTHR+1 thread of another pool */
+	/* who executes the call: 0 not a pool thread, 1..n thread of this pool, VF_NTHR+1 thread of another
+	 * pool. A compile-time constant per job (-DVF_SELF=k): a SYMBOLIC pointer into the pool object
+	 * makes every thread-record access a symbolic-offset byte extraction (flexible array member) and
+	 * the formula explodes (> 12 GB measured). */
+	const uint8_t self_sel = VF_SELF;
 	VF_NONDET(uint8_t, src_given);		/* pass src explicitly (== the executing thread) or NULL */
 	VF_NONDET(uint32_t, flags);
-	VF_NONDET(uint64_t, udata_v);
 	VF_NONDET(uint8_t, no_faults);
 	VF_NONDET(uint8_t, want_counts);
 	size_t send_cnt = 77, err_cnt = 77;
 
-	vf_udata = (void *)udata_v;
+	/* the user's argument: a pointer to some object (an integer-cast pointer would put "unknown
+	 * object" into CBMC's points-to sets of every udata parameter, and each access to the shared
+	 * record would become an update of the flat memory array) */
+	static char user_arg[2];
+	vf_udata = &user_arg[0];
 	/* the pool object: header followed by its flexible array of thread records (layout of tp_create's calloc) */
 	static struct { tp_t tp; tp_thread_t thr[VF_NTHR]; } pool;
 	vf_tp = &pool.tp;
@@ -112,9 +157,7 @@ void harness(void) {
 	for (size_t i = 0; i < VF_NTHR; i ++) {
 		VF_NONDET(size_t, st);
 		vf_tp->threads[i].tp = vf_tp; vf_tp->threads[i].thread_num = i; vf_tp->threads[i].state = st;
-		vf_q[i].fd[0] = 300 + 2 * (int)i; vf_q[i].fd[1] = 301 + 2 * (int)i;
-		vf_tp->threads[i].msg_queue = &vf_q[i];
-		vf_gp[i] = vf_pipe_make(vf_q[i].fd[0], vf_q[i].fd[1]);
+		vf_tp->threads[i].msg_queue = (void *)&vf_tp->threads[i];	/* non-NULL; only tested against NULL */
 	}
 	vf_foreign.tp = &vf_other_tp; vf_foreign.state = TP_THREAD_STATE_RUNNING; vf_other_tp.s.threads_max = 1;
 	VF_ASSUME(self_sel <= n || self_sel == VF_NTHR + 1);
@@ -132,7 +175,7 @@ void harness(void) {
 	    want_counts ? &send_cnt : NULL, want_counts ? &err_cnt : NULL);
 
 	if (!have_tp || !have_cb) {
-		VF_ASSERT(r == EINVAL && vf_cb_total == 0 && vf_wr_calls == 0, "bsend: NULL pool / callback => EINVAL, nothing happens");
+		VF_ASSERT(r == EINVAL && vf_cb_total == 0 && vf_snd_calls == 0, "bsend: NULL pool / callback => EINVAL, nothing happens");
 		VF_ASSERT(!want_counts || (send_cnt == 0 && err_cnt == 0), "bsend: EINVAL reports zero counts");
 	} else {
 		const _Bool sync = (flags & TP_BMSG_F_SYNC) != 0;
@@ -140,11 +183,11 @@ void harness(void) {
 		size_t delivered = 0, pending = 0;
 		for (size_t i = 0; i < VF_NTHR; i ++) {
 			if (i < n) {
-				const size_t d = vf_cb_cnt[i] + vf_gp[i]->len / 32;	/* ran already + queued for thread i */
+				const size_t d = vf_cb_cnt[i] + vf_pend_n[i];	/* ran already + queued for thread i */
 				const _Bool skip = (flags & TP_BMSG_F_SELF_SKIP) && vf_self == &vf_tp->threads[i];
 				VF_ASSERT(d <= 1, "bsend: no thread gets the message twice");
 				VF_ASSERT(!skip || d == 0, "bsend: the skipped caller gets nothing");
-				delivered += d; pending += vf_gp[i]->len / 32;
+				delivered += d; pending += vf_pend_n[i];
 			}
 		}
 		VF_ASSERT(vf_cb_cnt[VF_NTHR] == 0, "bsend: the callback only ever runs as a thread of this pool");
@@ -152,7 +195,8 @@ void harness(void) {
 		if (want_counts) {
 			VF_ASSERT(send_cnt + err_cnt == targeted, "bsend: sent + failed == number of threads targeted");
 			VF_ASSERT(send_cnt == delivered, "bsend: the sent count is the number of threads that got (or will get) the callback, once each");
-			VF_ASSERT((r == 0) == (send_cnt >= 1), "bsend: 0 iff at least one message was sent");
+			VF_ASSERT(send_cnt == 0 || r == 0, "bsend: at least one message sent => success");
+			VF_ASSERT(r != 0 || send_cnt >= 1 || targeted == 0, "bsend: success => at least one message sent (unless nobody was to be targeted)");
 		}
 		if (sync) {
 			VF_ASSERT(pending == 0, "bsend SYNC: returns only when no message is left in any queue (nothing refers to the caller's record any more)");
@@ -160,11 +204,19 @@ void harness(void) {
 			VF_ASSERT(vf_mtx_live == NULL && vf_mtx_held == NULL && vf_mtx_init_calls == vf_mtx_destroy_calls, "bsend SYNC: mutex released and destroyed");
 			VF_ASSERT(vf_mtx_init_calls == 0 || vf_count_at_destroy == 0, "bsend SYNC: the wait ends only when the active count is 0");
 		}
-		if (sync && n == VF_NTHR && vf_popped >= 2 && vf_steps >= 2) VF_CANARY("bsend: waited for two receivers");
-		if (sync && n == 1 && self_in_pool) VF_CANARY("bsend: single thread, synchronous, from itself");
+		/* reachability of the interesting scenarios, per caller identity of this job */
+#if VF_SELF == 0
+		if (sync && n == VF_NTHR && vf_popped >= 2 && vf_steps >= 2) VF_CANARY("bsend: waited for receivers over two yields");
 		if (!sync && n == VF_NTHR && pending == VF_NTHR) VF_CANARY("bsend: asynchronous, all queued");
-		if (self_sel == VF_NTHR + 1 && (flags & TP_BMSG_F_SELF_SKIP) && sync && n >= 2) VF_CANARY("bsend: caller from another pool, SELF_SKIP, SYNC");
 		if (want_counts && err_cnt == 1 && send_cnt == VF_NTHR - 1) VF_CANARY("bsend: one send failed");
+#elif VF_SELF <= VF_NTHR
+		if (sync && n == 1 && VF_SELF == 1) VF_CANARY("bsend: single thread, synchronous, from itself");
+		if (sync && n == VF_NTHR && (flags & TP_BMSG_F_SELF_SKIP) && vf_popped == VF_NTHR - 1) VF_CANARY("bsend: SYNC from a pool thread, itself skipped");
+		if (sync && n == VF_NTHR && (flags & TP_MSG_F_SELF_DIRECT) && !(flags & TP_BMSG_F_SELF_SKIP) && vf_cb_total == VF_NTHR) VF_CANARY("bsend: SYNC from a pool thread, itself served directly");
+#else
+		if ((flags & TP_BMSG_F_SELF_SKIP) && sync && n >= 2) VF_CANARY("bsend: caller from another pool, SELF_SKIP, SYNC");
+		if (n == 1 && sync) VF_CANARY("bsend: caller from another pool, single-thread pool, SYNC");
+#endif
 	}
 	VF_CANARY("bsend_ex harness end");
 }
